@@ -299,7 +299,7 @@ package transport
 //   closeStream$2     = addBackStreamQuota
 //   handleSettings$2  = updateStreamQuota
 
-//@ monitor http2Client.mu protects state, activeStreams
+//@ monitor http2Client.mu protects state, activeStreams, prevGoAwayID
 
 // A stream is admitted (gets an id) only while quota is positive, and takes
 // exactly one unit of it; ids are handed out in steps of two. With no quota
@@ -460,3 +460,39 @@ package transport
 //@ func (*loopyWriter).updateStreamAfterWrite
 //@   prop C01
 //@   assert at call enqueue#1 arg1 == str && Z(l.oiws) - Z(str.bytesOutStanding) > 0
+
+// ---- C14: GOAWAY -----------------------------------------------------------------------------------------
+//
+// Server, final GOAWAY (not the heads-up one): the transport stops accepting
+// streams (state = draining) and reads the highest accepted stream id in one
+// step, with BOTH maxStreamMu (taken first by the header handler before it bumps
+// maxStreamID) and mu held; that id is the one written. Heads-up: GOAWAY with
+// MaxUint32 and NO_ERROR, then the drain PING. Closing: nothing is written.
+
+//@ import math "math"
+
+//@ monitor http2Server.maxStreamMu protects maxStreamID
+
+//@ func (*http2Server).outgoingGoAwayHandler
+//@   prop C14
+//@   requires t != nil && g != nil
+//@   assert at return 1 result1 == ErrConnClosing && !result0 && ncalls("WriteGoAway") == 0
+//@   assert at call Unlock#3 !g.headsUp && t.state == draining && sid == t.maxStreamID
+//@   assert at call WriteGoAway#1 !g.headsUp && arg1 == sid && arg2 == g.code
+//@   assert at call WriteGoAway#2 g.headsUp && arg1 == math.MaxUint32 && arg2 == http2.ErrCodeNo
+//@   assert at call WritePing#1 arg1 == false && ncalls("WriteGoAway") == 1
+
+// Client: a GOAWAY with a non-zero even id, or with an id above the previous
+// GOAWAY's, is a connection error and touches no stream; otherwise exactly the
+// active streams with id < streamID <= upper limit (previous GOAWAY id, or all
+// on the first GOAWAY) are marked unprocessed and closed with the GOAWAY status
+// (they may be retried transparently), and the id is remembered.
+//@ func (*http2Client).handleGoAway
+//@   prop C14
+//@   requires t != nil && f != nil
+//@   loop 1 invariant t.prevGoAwayID == id && upperLimit >= 0
+//@   assert at return 2 id > 0 && id%2 == 0 && ncalls("closeStream") == 0 && ncalls("Store") == 0
+//@   assert at return 3 id > t.prevGoAwayID && ncalls("closeStream") == 0 && ncalls("Store") == 0
+//@   assert at call Store#1 arg1 == true && streamID > id && streamID <= upperLimit && t.prevGoAwayID == id
+//@   assert at call append#1 streamID > id && streamID <= upperLimit && sameslice(arg0, streamsToClose)
+//@   assert at call closeStream#1 arg0 == t && arg2 == errStreamDrain && arg3 == false && arg5 == statusGoAway && arg7 == false
